@@ -700,9 +700,23 @@ func drainFacts(p *pkg, f *facts) {
 		// TryRLock with a JUKEBOX reply when it fails
 		try := false
 		ast.Inspect(fn.Body, func(n ast.Node) bool {
+			// `if !…TryRLock() { … return … }`: the refused call returns from HandleCall at once, with a reply built
+			// either inline (NFSERR_JUKEBOX) or by busyReply, a plain function that cannot reach the server or run a handler
 			if is, ok := n.(*ast.IfStmt); ok && strings.Contains(exprString(p.fset, is.Cond), "policyRWMu.TryRLock()") &&
-				strings.HasPrefix(exprString(p.fset, is.Cond), "!") && strings.Contains(exprString(p.fset, is.Body), "NFSERR_JUKEBOX") {
-				try = true
+				strings.HasPrefix(exprString(p.fset, is.Cond), "!") && len(is.Body.List) > 0 {
+				body := exprString(p.fset, is.Body)
+				_, endsInReturn := is.Body.List[len(is.Body.List)-1].(*ast.ReturnStmt)
+				refusal := strings.Contains(body, "NFSERR_JUKEBOX")
+				if strings.Contains(body, "busyReply(") {
+					if bf, ok := p.funcs["busyReply"]; ok && bf.Recv == nil {
+						bsrc := exprString(p.fset, bf.Body)
+						refusal = strings.Contains(bsrc, "NFSERR_JUKEBOX") && !strings.Contains(bsrc, "handleNFSCall") &&
+							!strings.Contains(bsrc, "handleMountCall") && !strings.Contains(bsrc, "policyRWMu") && !strings.Contains(bsrc, "go func")
+					}
+				}
+				if endsInReturn && refusal && !strings.Contains(body, "handleNFSCall") && !strings.Contains(body, "handleMountCall") {
+					try = true
+				}
 			}
 			return true
 		})
